@@ -19,6 +19,19 @@ Representation choices (none is read by the modelled code paths in a way that ch
   priming payload).  It is never purged here (C08 assumes the store keeps its contract; C20 proves
   the in-memory store either replays exactly or reports the purge).
 * ghost fields, never read by `step`: `Item.ctx`, `Exch.stream`, `Exch.from`, `Stream.calls`, `Conn.hist`.
+
+Deviations from Appendix E (all recorded because the differential run asked for them):
+* labels that open an exchange carry a write `budget` (WFAIL at a chosen point of the exchange, incl. "from the
+  start" and "in the middle of a replay"); WRITE carries `ctxNew` (the write's context has version ≥ 2026-07-28:
+  no store append, no event id — C08 is about contexts before that version);
+* `Write`'s two critical sections (routing under `c.mu`, append+deliver under `s.mu`) are ONE label, and so are
+  `acquireStream`'s lookup and replay sections; the release that follows SCLOSE / END is the separate CUT label
+  (the driver issues it); a response that completes a stream ends the exchange in the WRITE label itself;
+* the temporary "exclusive replay" entry of `acquireStream` does not persist in a state (GET is atomic);
+* `select`s on `c.done` that race with a ready channel (`incoming` has room) are resolved as: POST without
+  calls ⇒ 202; POST with calls / GET on a closed session ⇒ registered / attached, then released at once;
+* not modelled: the SEP-2575 `overrideStatus` path (protocol-level JSON-RPC errors under 2026-07-28),
+  purging in the store, `EventStore` methods returning errors.
 -/
 namespace Resume
 
